@@ -90,6 +90,12 @@ func runUnlikely(c Case, e *env) []Event {
 			// the marked subtree is a cluster of links (typical chrome) instead of article-like text
 			inner = g.linkCluster(3 + marks[i].words/40)
 		}
+		if r.Intn(5) == 0 {
+			// a marked wrapper that holds nothing but media: no words are at stake, only the elements
+			inner = pickS(r, fmt.Sprintf(`<img src="/i/zqmk%d.png" alt="">`, g.marker()),
+				fmt.Sprintf(`<video controls src="/v/zqmk%d.mp4"></video>`, g.marker()),
+				fmt.Sprintf(`<img src="/i/zqmk%d.png" alt=""><img src="/i/zqmk%d.png" alt="">`, g.marker(), g.marker()))
+		}
 		if marks[i].tag == "ul" {
 			inner = "<li>" + inner + "</li>"
 		}
